@@ -112,6 +112,9 @@ pub(crate) struct SimConfig {
     pub users: Vec<UserCfg>,
     #[serde(default)]
     pub channels: Vec<ChanCfg>,
+    /// every connection arrives over the (simulated) secure transport: `is_secure()` is true, WHOIS adds 671
+    #[serde(default)]
+    pub all_secure: bool,
 }
 
 impl Default for SimConfig {
@@ -133,6 +136,7 @@ impl Default for SimConfig {
             operators: vec![],
             users: vec![],
             channels: vec![],
+            all_secure: false,
         }
     }
 }
